@@ -4,6 +4,7 @@ CONSTANTS
   NameTok <- MCNameTok
   SymTok <- MCSymTok
   BadSyms <- MCBadSyms
+  MaybeSyms <- MCMaybeSyms
 INIT MCInit
 NEXT MCNext
 VIEW View
